@@ -17,6 +17,8 @@ import CijModel.Ops.C17
 import CijModel.Ops.C20
 import CijModel.Ops.C16
 import CijModel.Ops.C11
+import CijModel.Ops.C08
+import CijModel.Ops.C09
 open Lean Cij.Wire
 
 def handlers : List Handler := [
@@ -33,7 +35,9 @@ def handlers : List Handler := [
   Cij.Ops.C17.handle,
   Cij.Ops.C20.handle,
   Cij.Ops.C16.handle,
-  Cij.Ops.C11.handle
+  Cij.Ops.C11.handle,
+  Cij.Ops.C08.handle,
+  Cij.Ops.C09.handle
 ]
 
 def dispatch (line : String) : Json :=
